@@ -47,7 +47,8 @@ for dst in sorted(glob.glob(f'{VERIF}/seeded/C*-m*')):
     prop = sid.split('-')[0]
     metaf = f'{dst}/meta.json'
     meta = json.load(open(metaf)) if os.path.exists(metaf) else {}
-    if meta.get('confirmed') and not recheck and not only:
+    had_broken = any(r['exit'] not in (0, 1) for r in meta.get('checks', {}).values())
+    if meta.get('confirmed') and not recheck and not only and not had_broken:
         continue
     dest, run = demo_info(f'{dst}/demo_test.go')
     t0 = time.time()
